@@ -180,6 +180,16 @@ func c07LockSections(r *core.Run) {
 		r.Check(ok, "rmw-owner-routed", s.fn.Name+" locker.Lock", where, why,
 			"the per-key lock is node-local but this Lock call can be reached on a member that does not own the key ("+why+"): callers on two members then run the read-modify-write concurrently and lose updates")
 
+		// (3b) one locker per member: the lock table is the Service's, shared by every DMap
+		// object and every entry point (a locker owned by the DMap object would split when
+		// the object is re-created, e.g. after Destroy, while old handles are still in use)
+		recvOK := false
+		if len(args) >= 1 {
+			recvOK = core.IsFieldLoad("Service", "locker")(canonVal(args[0]))
+		}
+		r.Check(recvOK, "rmw-lock-key", s.fn.Name+" locker identity", where,
+			"the lock is taken in the Service's locker (one lock table per member)",
+			"the per-key lock is not taken in the member-wide Service.locker: two lock tables for one key do not exclude each other (old and new DMap objects after Destroy, or different entry points), so read-modify-write sections interleave")
 		// (4) lock name
 		shape := strings.Join(lockKeyShape(p, key, nil, 0), " + ")
 		shapes = append(shapes, shape)
